@@ -226,6 +226,7 @@ func c16WireRun(c *core.Ctx, k c16WireCase) {
 		return
 	}
 	var evs []c16Ev
+	undecodable := false // part of the capture is missing: per-session histories would be incomplete
 	if k.UDP {
 		type sock struct {
 			addr string
@@ -235,6 +236,7 @@ func c16WireRun(c *core.Ctx, k c16WireCase) {
 		for _, d := range w.DecodeDatagrams() {
 			if d.Err != nil {
 				c.Violate("C16/wire/pattern-not-exhibited", fmt.Sprintf("datagram #%d emitted under the configured pattern cannot be decoded by the reference codec (%v): the traffic does not exhibit the configured low-entropy mode / rotation / lengths", d.Index, d.Err), k)
+				undecodable = true
 				continue
 			}
 			c2s := d.To == "10.8.0.1:8964"
@@ -269,6 +271,7 @@ func c16WireRun(c *core.Ctx, k c16WireCase) {
 		for _, ds := range w.DecodeStreams() {
 			if ds.Err != nil {
 				c.Violate("C16/wire/pattern-not-exhibited", fmt.Sprintf("conn %d (client→server=%v) emitted under the configured pattern cannot be decoded by the reference codec (%v): the traffic does not exhibit the configured low-entropy mode / rotation / lengths", ds.ConnID, ds.ClientToServer, ds.Err), k)
+				undecodable = true
 				continue
 			}
 			eff, side := sEff, "server"
@@ -325,7 +328,9 @@ func c16WireRun(c *core.Ctx, k c16WireCase) {
 			}
 		}
 	}
-	c16CheckLowEntropy(c, evs, cEff, sEff, k)
+	if !undecodable {
+		c16CheckLowEntropy(c, evs, cEff, sEff, k)
+	}
 }
 
 // c16FixedWorlds: the deterministic worlds of every run (TCP and UDP each): padding 0/0; explicit low-entropy
